@@ -20,6 +20,7 @@ int verif_thrown;
 int verif_thrown_other;
 size_t verif_ghost_idx, verif_ghost_idx2, verif_ghost_idx3, verif_ghost_idx4;
 int verif_ghost_int, verif_ghost_int2;
+long long vm_last_k;
 #define VERIF_THROW(r) verif_thrown = 1; return r
 #define VERIF_THROW_OTHER(r) verif_thrown_other = 1; return r
 #define VERIF_PROPAGATE(r) if (verif_thrown || verif_thrown_other) return r
@@ -33,7 +34,8 @@ class Job:
                  unwind=None, strcap=32, timeout=None, tier='quick', cname=None, may_throw=None, srcrel=None,
                  extra_cflags=(), cbmc_flags=(), no_checks=False, stubs=(), self_const=None, arity=None,
                  inline_select=None, object_bits=None, lemma=False, defines=(), variant_of=None, kf=None,
-                 description='', cases=None, case=None, replay_ghost=(), replay_domain=None, variants=None, unwindset=None, assume=None, contract_name=None, sat=None):
+                 description='', cases=None, case=None, replay_ghost=(), replay_domain=None, variants=None, unwindset=None, assume=None, contract_name=None, sat=None, exclude_clauses=()):
+        self.exclude_clauses = tuple(exclude_clauses)   # clause ids left to another (slower) job of the same function
         self.sat = sat   # None = minisat2 (cbmc default), or 'cadical'
         self.assume = assume   # (C condition over harness inputs, justification): the job covers only these inputs
         self.contract_name = contract_name
@@ -237,7 +239,8 @@ def build_tu(proj, job):
         parts.append(ex.text)
         metas.append(dict(function=cfi.qualname, role='inlined helper', file=ex.srcrel, lines=list(ex.lines), sha256=ex.sha))
     # the function under contract
-    ex = T.extract_function(proj, fi, functable, real, job.srcrel, job.select, report, contract=contract)
+    ex = T.extract_function(proj, fi, functable, real, job.srcrel, job.select, report, contract=contract,
+                            exclude_clauses=getattr(job, 'exclude_clauses', ()))
     parts.append(ex.text)
     metas.insert(0, dict(function=fi.qualname, role='under contract', file=ex.srcrel, lines=list(ex.lines), sha256=ex.sha,
                          loop_contracts=ex.loops_spliced))
